@@ -108,10 +108,41 @@ def one_tree(ctx, drv):
         trees.rmtree(root)
 
 
+def wide_tree(ctx, drv):
+    """more directories than one chunk of the (parallel) directory pass holds - 70 to 150 -, a stray file in every one: each of
+    them is reported, whichever position its directory has in the walk"""
+    rng = ctx.rng
+    root = common.scratch_dir('gv.c07w.')
+    try:
+        n = rng.choice([66, 70, 129, 150])
+        from harness.trees import entry_line, digests_of
+        lines = []
+        for i in range(n):
+            d = 'pkgs/d%04d' % i
+            os.makedirs(os.path.join(root, d))
+            open(os.path.join(root, d, 'f'), 'wb').write(b'content %d' % i)
+            lines.append(entry_line('DATA', d + '/f', len(b'content %d' % i), digests_of(b'content %d' % i, ['SHA1'])))
+            open(os.path.join(root, d, 'stray'), 'wb').write(b's')
+        open(os.path.join(root, 'Manifest'), 'w').write(''.join(l + '\n' for l in lines))
+        for path in ('', 'pkgs'):
+            h = treeimpl.Recorder(default=False)
+            impl = treeimpl.verify_dir(root, 'Manifest', path, h)
+            reported = sorted(set(h.calls))
+            want = sorted('pkgs/d%04d/stray' % i for i in range(n))
+            scen = {'op': 'wide-tree', 'directories': n, 'path': path}
+            ctx.count('stream:wide-tree')
+            ctx.case(json.dumps(scen), True, dict(scen, reported=len(reported)))
+            if reported != want or impl.get('ret') is not False:
+                missing = sorted(set(want) - set(reported))
+                ctx.fail('offending-path-not-reported', dict(scen, missing=missing[:5]), f'{len(missing)} of {n} strays never reported; result {impl}')
+    finally:
+        trees.rmtree(root)
+
+
 def run(ctx):
     ctx.rule = ('consistent trees with 0-6 simultaneous discrepancies in several directories (12 mutation kinds incl. missing '
                 'directories, files in IGNOREd/hidden places), whole tree and a sub-path, handler policies always-False / always-True / '
-                'mixed; CLI --keep-going. Oracle: by-construction expectations (reported iff offending, exactly once), result iff some '
+                'mixed; CLI --keep-going; wide trees of 66-150 directories with a stray in each. Oracle: by-construction expectations (reported iff offending, exactly once), result iff some '
                 'verdict was failure, and agreement with the Lean model. non-trivial = every distinct request')
     ctx.assumptions = ['trees whose layout has duplicate/conflicting entries are excluded from the by-construction oracle (model agreement still applies)']
     drv = common.Driver()
@@ -119,6 +150,8 @@ def run(ctx):
         n = 400 if ctx.tier == 'quick' else 4000
         for i in range(n):
             one_tree(ctx, drv)
+        for i in range(2 if ctx.tier == 'quick' else 12):
+            wide_tree(ctx, drv)
     finally:
         drv.close()
 
